@@ -147,6 +147,18 @@ CLAIMED["C13"] = dict(
           "artifacts produced by the engine. Same bounds and known-finding attribution as C01."),
     ref="4 C13")
 
+CLAIMED["C10"] = dict(
+    engine="base",
+    technique="TLA+ spec Schema.tla: closure of (schema type, JSON value, bytes) triples under the type constructors with EncType for the schema's own binary form, enumerated by TLC; each triple replayed in both directions on the real conversion; refusal vectors; hostile inputs one per process",
+    text=("Schema.tla relates schema types, the JSON values they accept (in the normal form bytes -> JSON yields) and the contract-side encoding: about 40 leaf triples written from the documentation of the "
+          "primitive types (integers incl. 128-bit as strings, LEB128 with constraint, byte lists/arrays as hex, strings with four size lengths, contract/receive names, amounts, timestamps, durations, contract "
+          "addresses) closed under pair, list, set, map, array, struct (named/unnamed/none), enum and tagged enum to depth 3 - about 10^4 triples. For each, serial_value must give exactly the bytes, to_json exactly "
+          "the JSON consuming all bytes, and the schema type's binary form must equal EncType and read back. JSON values a type does not accept must be refused; bytes that encode no value must be refused without "
+          "exhausting memory. Found and fixed with this check: ByteList/ByteArray memory exhaustion (S1) and unvalidated contract/receive names in JSON -> bytes (S2)."),
+    note=("Leaf values with text forms come from a fixed table (their grammar is C16's); account addresses are not covered; module schema versions / base64 framing are not yet specified; nesting deeper than 32 "
+          "and degenerate zero-width lengths are outside the property."),
+    ref="4 C10")
+
 NOT_YET = {
 }
 
